@@ -399,6 +399,15 @@ class TorchPk(object):
     @staticmethod
     def fresh(inp):
         if inp.kind == 'group':
+            if getattr(inp, 'view', False):
+                # the same list as a row-strided, column-windowed (non-contiguous) view of a larger buffer
+                m = lib.torch_mods()
+                L, W = inp.gs.shape
+                big = np.ones((2 * L, W + 2), dtype=np.float32)
+                big[::2, 1:W + 1] = inp.gs
+                bp = np.full(2 * L, 3, dtype=np.float32)
+                bp[::2] = inp.ps
+                return m['tpa'].PauliList(lib.tT(big)[::2, 1:W + 1], lib.tT(bp)[::2])
             return lib.tPL(inp.gs, inp.ps)
         return lib.tST(inp.gs, inp.ps, inp.r)
 
@@ -424,7 +433,16 @@ class TorchPk(object):
 
     @staticmethod
     def inputs(N):
-        return inputs(N, light=(N >= 3))
+        return inputs(N, light=(N >= 3)) + [_view_input(N)]
+
+
+@functools.lru_cache(maxsize=None)
+def _view_input(N):
+    G = all_g(N)
+    ph = np.array([(int(ref.gindex(g)) + 2 * ref.weight(g) + 1) % 4 for g in G], dtype=I64)
+    v = Inp('group', 'all %d strings (phases cycling) as a non-contiguous view' % len(G), G, ph, None, N)
+    v.view = True
+    return v
 
 
 PKS = {'py': PyPk, 'torch': TorchPk}
